@@ -848,6 +848,36 @@ fn detail_programs(tier: Tier) -> Vec<Program> {
             }
         }
     }
+    // the same require string written in two files designates two different files: `@self` of two module folders (luau
+    // mode), `./helper` of two folders (both modes), next to an alias-prefixed string that designates one file for both
+    let m2 = "src/main.luau";
+    for (label, spelled, mode_index) in [("the same `@self/helper` in two module folders", "@self/helper", 1usize), ("the same `./helper` in two folders", "./helper", 0), ("the same `./helper` in two folders", "./helper", 1)] {
+        let folder_file = if spelled.starts_with("@self") { "init.luau" } else { "mod.luau" };
+        let req_a = if spelled.starts_with("@self") { "./pa".to_owned() } else { "./pa/mod".to_owned() };
+        let req_b = if spelled.starts_with("@self") { "./pb".to_owned() } else { "./pb/mod".to_owned() };
+        let (pa, pb) = (format!("src/pa/{}", folder_file), format!("src/pb/{}", folder_file));
+        let files: Vec<(String, String)> = vec![
+            (m2.to_owned(), module_source(m2, Kind::Table, &[(0, req_a, Kind::Table), (0, req_b, Kind::Table), (0, "pkg/shared".to_owned(), Kind::Table)], true)),
+            (pa.clone(), module_source(&pa, Kind::Table, &[(0, spelled.to_owned(), Kind::Table), (0, "pkg/shared".to_owned(), Kind::Table)], false)),
+            (pb.clone(), module_source(&pb, Kind::Table, &[(1, spelled.to_owned(), Kind::Table), (0, "@pkg/shared".to_owned(), Kind::Table)], false)),
+            ("src/pa/helper.luau".to_owned(), module_source("src/pa/helper.luau", Kind::Table, &[], false)),
+            ("src/pb/helper.luau".to_owned(), module_source("src/pb/helper.luau", Kind::Func, &[], false)),
+            ("src/shared.luau".to_owned(), module_source("src/shared.luau", Kind::Table, &[], false)),
+        ];
+        for (generator, rules) in configs(tier).into_iter().take(2) {
+            out.push(Program {
+                mode: mode_menu()[mode_index].clone(),
+                files: files.clone(),
+                entry: m2.to_owned(),
+                excludes: vec![],
+                externals: vec![],
+                generator: generator.to_owned(),
+                rules: rules.to_owned(),
+                expect_error: None,
+                label: label.to_owned(),
+            });
+        }
+    }
     out
 }
 
